@@ -53,6 +53,14 @@ theorem caster_idem (m : TypeName.Str) (v w : PyVal) (h : caster.parse m v = som
             have : producedClass.lookup "TIMESTAMP" = some "datetime" := by decide
             rw [this] at hl; exact (Option.some.inj hl).symm
           simp [this, classOf_tagged]
+        · rename_i s hname
+          simp only [Option.some.injEq] at h
+          subst h
+          rw [hname] at hl
+          have : cls = "time" := by
+            have : producedClass.lookup "TIME" = some "time" := by decide
+            rw [this] at hl; exact (Option.some.inj hl).symm
+          simp [this, classOf_tagged]
         · cases h
 
 end Persist.Py
